@@ -25,7 +25,14 @@ stimuli
     tmo   the virtual clock reaches launch time + timeout exactly (every other stimulus happens "pace"
           seconds after the previous one - 0, 1, 2 or 3 s per case - always before that deadline)
     exit0 / exit1 / sig   the process ends (code 0 / code 1 / signal), control link drops
+    xit / end     the process exits (processExited) while something still holds its stdio pipes / the pipes
+                  close at last (processEnded); like in Twisted, loseConnection() on the exited process
+                  also brings processEnded in the next reactor turn
 
+The fake Tor has a bootstrap phase of its own (case "warm": 0, 50 or 100 % when the controller connects;
+advanced by plo / p100) and reports it to GETINFO status/bootstrap-phase; such a reply with PROGRESS=100 counts
+as Tor's 100 % report like the event does.  "reject" cases call launch() with arguments it refuses before
+spawning (only the directory clauses are judged there).
 A case also says how the code is entered ("mode"): launch() (default; the caller's directory given by the
 data_directory= keyword, or only through TorConfig.DataDirectory of a passed-in config - launch(_tor_config=cfg)
 or the legacy launch_tor(cfg, reactor, ...)), "direct" (TorProcessProtocol constructed and spawned by the
@@ -62,7 +69,11 @@ LEVEL_TEXT = ("Held on the executions observed: every causally possible order of
               "offsets in and around the phrase (quick) / at every byte offset (thorough) for every order of up to 4 "
               "stimuli; every order of up to 2 (quick) / 3 (thorough) further stimuli after a retried control connection "
               "(first attempt refused, or rejected / dropped at TAKEOWNERSHIP or RESETCONF); ownership is judged per "
-              "connection (TAKEOWNERSHIP on the connection that reported 100%); when_connected() requested at every position; oracle evaluated after every stimulus, after the "
+              "connection (TAKEOWNERSHIP on the connection that reported 100%, by event or by GETINFO status/bootstrap-phase "
+              "reply, at the instant of the notification); TorProcessProtocol driven without launch() and "
+              "launch(control_port=0) with late observers only; process exit with the stdio pipes still open in every "
+              "order with deadline and pipe closure; launch() calls refused before spawning; stdout/stderr with 10 kinds "
+              "of byte content; virtual time advancing between stimuli; when_connected() requested at every position; oracle evaluated after every stimulus, after the "
               "reactor's shutdown triggers and after a final forced process end. Enumeration is complete for the stated "
               "alphabet and bound only; configuration variants other than the data directory are rotated by the seed, "
               "not multiplied. Not a proof.")
@@ -116,6 +127,8 @@ FLOORS = {
               "control_connections_retried": 80, "control_connections_dropped_mid_ownership": 600,
               "dialogue_commands_stalled": 30, "late_observers_compared_with_first_outcome": 10000,
               "timeouts_judged_after_failed_attempts_at_later_instants": 300,
+              "rejected_launches_judged": 20, "process_exits_with_pipes_still_open": 100,
+              "deadline_passed_after_exit_with_pipes_open": 100,
               "stderr_stimuli_undecodable": 1500, "stderr_stimuli_decodable": 1000,
               "caller_dir_supplied_via_torconfig": 400, "process_protocols_driven_directly": 120,
               "launch_without_control_port": 30, "observers_checked_for_pending_after_failure": 15000,
@@ -168,16 +181,20 @@ GROUPS = [
     ("lst", ["lst"]), ("out", ["out"]), ("err", ["err"]),
     ("c1", ["cok", "cfail"]), ("own", ["own+", "own-", "own!"]), ("rst", ["rst+", "rst-", "rst!"]),
     ("plo", ["plo"]), ("p100", ["p100"]), ("tmo", ["tmo"]),
-    ("exit", ["exit0", "exit1", "sig"]),
+    ("exit", ["exit0", "exit1", "sig", "xit"]), ("end", ["end"]),
     ("lst2", ["lst2"]), ("c2", ["cok2", "cfail2"]),
     ("stl", ["stl+", "stl-"]),
 ]
 GROUP_OF = {a: g for g, al in GROUPS for a in al}
-ATOMS = [a for g, al in GROUPS for a in al if g != "stl"]     # general alphabet (stl only in stall cases)
+# general alphabet (stl only in stall cases, xit / end only in the open-pipes family)
+ATOMS = [a for g, al in GROUPS for a in al if g not in ("stl", "end") and a != "xit"]
+PIPE_ATOMS = ["lst", "out", "err", "cok", "cfail", "p100", "plo", "tmo", "xit", "end"]
 STALL_ATOMS = ["p100", "plo", "stl+", "stl-", "tmo", "exit1", "out", "err", "sig"]
+REJECT_KINDS = ["nonanon+socks", "unix-dir-missing", "unix-dir-0755", "unknown-user", "stdout-not-filelike"]
 NOCTL_ATOMS = ["out", "err", "tmo", "exit0", "exit1", "sig", "lst"]     # ControlPort=0: nothing to connect to
 STALL_POSITIONS = 11        # commands txtorcon sends after the first SETEVENTS acknowledgement (0..10)
 EXITS = ("exit0", "exit1", "sig")
+GONE = EXITS + ("xit",)          # the process is gone (reaped); with xit its end is not reported yet
 # the first control connection got past authentication and then failed while asking for ownership:
 # txtorcon may retry when the listener line shows up again
 POST_AUTH_FAILURES = ("own-", "own!", "rst-", "rst!")
@@ -215,7 +232,9 @@ def allowed(prefix, atom):
     if any(GROUP_OF[a] == g for a in prefix):
         return False
     s = set(prefix)
-    exited = any(a in s for a in EXITS)
+    exited = any(a in s for a in GONE)
+    if g == "end":
+        return "xit" in s
     live1, live2 = connections_alive(prefix)
     connected = live1 or live2
     retry_open = "lst2" in s and any(a in s and prefix.index(a) < prefix.index("lst2")
@@ -389,6 +408,8 @@ def variant(rnd, dd, **fixed):
         "outb": rnd.choice(BYTE_KINDS[:3] + BYTE_KINDS),
         "errb": rnd.choice(BYTE_KINDS + ["latin1", "long-utf8", "binary"]),
         "pad": rnd.choice([0, 1, 2]),
+        "warm": rnd.choice([0, 0, 0, 50, 100]),
+        "reject": None,
         "via": rnd.choice(["launch", "launch", "launch_tor"]),     # route used when dd == "config"
     }
     v.update(fixed)
@@ -497,7 +518,7 @@ class GatedTor(FakeTor):
 class Tap(object):
     """between Link and the control protocol: notes when a complete PROGRESS=100 event line
     has been handed over (set *before* the completing chunk is delivered)"""
-    P100 = re.compile(rb"650 STATUS_CLIENT NOTICE BOOTSTRAP PROGRESS=100 [^\r\n]*\r\n")
+    P100 = re.compile(rb"(?:650 STATUS_CLIENT |250[-+ ]status/bootstrap-phase=)NOTICE BOOTSTRAP PROGRESS=100 [^\r\n]*\r\n")
 
     def __init__(self, run, proto, link):
         self.run = run
@@ -515,6 +536,8 @@ class Tap(object):
             if self.P100.search(self.rx):
                 run.t100 = run.step_no
                 run.t100_link = self.link
+                if b"status/bootstrap-phase=" in self.rx:
+                    run.rec.count("bootstrap_100_reported_by_getinfo_reply")
                 run.timeout_before_100 = run.timeout_elapsed_at is not None
         self.proto.dataReceived(data)
 
@@ -558,7 +581,10 @@ class Run(object):
         self.t100 = None            # step at which a complete PROGRESS=100 event was delivered
         self.timeout_before_100 = False
         self.timeout_elapsed_at = None
-        self.exited_at = None
+        self.exited_at = None       # step at which the end of the process was reported (processEnded)
+        self.gone_at = None         # step at which the process exited (processExited)
+        self.phase = (case.get("warm", 0), "starting", "Starting")
+        self.rejected = False
         self.launch_failed_due = None   # "exit" | "timeout": came before any delivered 100 %
         self.obs = []
         self.L = None
@@ -596,14 +622,14 @@ class Run(object):
 
     def order_class(self):
         """structural class of the schedule as applied so far: which terminal event came first"""
-        for a in self.applied:
-            if a == "p100" and self.t100 is not None:
-                return "bootstrap-first"
-            if a == "tmo":
-                return "timeout-first"
-            if a in EXITS or a == "final-exit":
-                return "exit-first"
-        return "no-terminal-event"
+        first = []
+        if self.t100 is not None:
+            first.append((self.t100, 0, "bootstrap-first"))
+        if self.timeout_elapsed_at is not None:
+            first.append((self.timeout_elapsed_at, 1, "timeout-first"))
+        if self.gone_at is not None:
+            first.append((self.gone_at, 2, "exit-first"))
+        return min(first)[2] if first else "no-terminal-event"
 
     def snapshot(self):
         # ownership must have been requested on the authenticated connection that reported 100 %
@@ -689,15 +715,32 @@ class Run(object):
             kw["control_port"] = "unix:" + self.where
         if case["socks"] == "fixed":
             kw["socks_port"] = 9150
+        rj = case.get("reject")
+        if rj == "nonanon+socks":
+            kw["non_anonymous_mode"] = True
+            kw["socks_port"] = 9150
+        elif rj == "unix-dir-missing":
+            kw["control_port"] = "unix:" + os.path.join(self.root, "no", "such", "dir", "ctl.sock")
+        elif rj == "unix-dir-0755":
+            sd = os.path.join(self.root, "open-sock")
+            os.mkdir(sd, 0o755)
+            os.chmod(sd, 0o755)
+            kw["control_port"] = "unix:" + os.path.join(sd, "ctl.sock")
+        elif rj == "unknown-user":
+            kw["user"] = "no-such-user-vf-c19"       # rejected (KeyError from pwd) only when running as root
+        elif rj == "stdout-not-filelike":
+            kw["stdout"] = object()
         if case["creator"] == "custom":
             kw["connection_creator"] = self.creator
-        if case["io"]:
+        if case["io"] and rj != "stdout-not-filelike":
             self.out_sink, self.err_sink = Sink(), Sink()
             kw["stdout"], kw["stderr"] = self.out_sink, self.err_sink
         if case["prog"]:
             kw["progress_updates"] = self.on_progress
         self.log.start()
         self.deadline = r.seconds() + TIMEOUT          # launch time + timeout, on the virtual clock
+        if rj:
+            legacy = False
         if legacy:
             # launch_tor(config, reactor, ...) takes ports from the config
             for k_, name in (("control_port", "ControlPort"), ("socks_port", "SocksPort")):
@@ -796,8 +839,17 @@ class Run(object):
         self.tor_kw = dict(hold=hold, auth_methods=("COOKIE", "SAFECOOKIE"), cookie=cookie,
                            cookiefile=cookiefile or "/nonexistent/control_auth_cookie", conf=conf)
 
+    def phase_text(self, key=None):
+        n, tag, summ = self.phase
+        return 'NOTICE BOOTSTRAP PROGRESS=%d TAG=%s SUMMARY="%s"' % (n, tag, summ)
+
     def new_tor(self):
         tor = GatedTor(**self.tor_kw)
+        # queries txtorcon does not make today are answered from the state the process really has
+        tor.info["status/bootstrap-phase"] = self.phase_text
+        tor.info["status/circuit-established"] = lambda k: "1" if self.phase[0] == 100 else "0"
+        tor.info["status/enough-dir-info"] = lambda k: "1" if self.phase[0] >= 80 else "0"
+        tor.info["net/listeners/control"] = lambda k: '"%s"' % self.where
         tor.stall = self.stall
         tor.info["config/names"] = list(CONF_NAMES)
         return tor
@@ -960,6 +1012,8 @@ class Run(object):
                 return False
             n = 100 if atom == "p100" else self.case["plo"]
             tag, summ = ("done", "Done") if n == 100 else ("loading_descriptors", "Loading relay descriptors")
+            if n >= self.phase[0]:
+                self.phase = (n, tag, summ)
             text = 'NOTICE BOOTSTRAP PROGRESS=%d TAG=%s SUMMARY="%s"' % (n, tag, summ)
             # Tor reports on every control connection that subscribed
             links = self.live_links()
@@ -984,16 +1038,29 @@ class Run(object):
                     self.launch_failed_due = "timeout"
             # exactly the deadline: launch time + timeout, whatever happened to connection attempts
             self.guard("tmo", self.reactor.advance, max(0, self.deadline - self.reactor.seconds()))
-        elif atom in EXITS or atom == "final-exit":
+        elif atom in ("end", "final-end"):
+            if proc is None or proc.alive:
+                return False
+            if proc.ended:
+                self.rec.count("pipes_closed_after_end_already_reported")   # loseConnection() got there first
+            else:
+                for e in proc.pipes_closed():
+                    self.escaped.append((atom, e))
+        elif atom in GONE or atom == "final-exit":
             if not live:
                 return False
-            self.exited_at = self.step_no
+            self.gone_at = self.step_no
+            if atom != "xit":
+                self.exited_at = self.step_no
             if self.t100 is None and self.launch_failed_due is None:
                 self.launch_failed_due = "exit"
             order = self.case["exit_conn"]
             if order == "before":
                 self.drop_link()
-            if atom == "exit0":
+            if atom == "xit":
+                errs = proc.exit(code=1, pipes_open=True)
+                self.rec.count("process_exits_with_pipes_still_open")
+            elif atom == "exit0":
                 errs = proc.exit(code=0)
             elif atom == "exit1":
                 errs = proc.exit(code=1)
@@ -1010,6 +1077,8 @@ class Run(object):
         self.guard("flush", self.reactor.flush)
         if atom in FAILED_ATTEMPT_ATOMS and self.timeout_elapsed_at is None:
             self.failed_attempt_times.append(self.reactor.seconds())
+        if proc is not None and proc.ended and self.exited_at is None:
+            self.exited_at = self.step_no          # the end was reported during this step
         return True
 
     def drop_link(self):
@@ -1110,6 +1179,13 @@ class Run(object):
                 rec.count("when_connected_outcomes_judged")
                 if o.ok:
                     rec.count("when_connected_success_judged")
+                    if snap["t100"] is not None and not snap["own_written"] and not snap["failed_due"]:
+                        # the notification went out on a 100 % report over a connection on which
+                        # TAKEOWNERSHIP had not been written at that instant
+                        self.V("when-connected-success-without-takeownership",
+                               ocls + ("/retried-connection" if snap["t100_connection"] else ""),
+                               {"requested_at_step": o.req_step, "fired_at_step": o.step, "snapshot": snap,
+                                "commands_per_connection": [list(l.tor.lines)[-5:] for l in self.links]})
                     if snap["t100"] is None:
                         cls = ("requested-after-failed-launch" if o.req_after_failure
                                else "requested-before-any-failure")
@@ -1143,7 +1219,7 @@ class Run(object):
         # (3) timeout: TERM while the launch was still under way, none once bootstrap had completed
         if atom == "tmo" and self.proc is not None:
             new = list(self.proc.signals[self.signals_before:])
-            if self.timeout_elapsed_at == self.step_no and self.exited_at is None:
+            if self.timeout_elapsed_at == self.step_no and (self.gone_at is None or self.gone_at == self.step_no):
                 rec.count("timeouts_elapsed_judged")
                 if self.t100 is None and not self.launch_fired_before_tmo:
                     rec.count("timeouts_before_bootstrap_judged")
@@ -1163,17 +1239,25 @@ class Run(object):
                 elif self.t100 is not None and new:
                     self.V("term-signalled-after-bootstrap-complete", ocls, {"signals_sent_on_timeout": new})
         # (4) failure is due
-        if self.launch_failed_due == "exit" and self.L is not None and not self.L.fired:
+        # the process exited before any 100 %: the failure is due once its end has been reported, or - while
+        # something still holds its pipes - by the time the launch deadline has passed (bounded progress)
+        exit_due = self.launch_failed_due == "exit" and (self.exited_at is not None or
+                                                          self.timeout_elapsed_at is not None)
+        open_pipes = self.gone_at is not None and "xit" in self.applied and "end" not in self.applied
+        if open_pipes and self.launch_failed_due == "exit" and self.timeout_elapsed_at is not None:
+            rec.count("deadline_passed_after_exit_with_pipes_open")
+        if exit_due and self.L is not None and not self.L.fired:
             self.V("launch-not-failed-after-process-end",
                    ocls + ("+undecodable-stderr-before-exit" if "err" in self.applied
-                           and self.case.get("errb") in UNDECODABLE_KINDS else ""), {"atom": atom})
+                           and self.case.get("errb") in UNDECODABLE_KINDS else "")
+                   + ("+pipes-still-open-at-deadline" if open_pipes else ""), {"atom": atom})
         if self.launch_failed_due == "timeout" and self.exited_at is not None and self.L is not None \
                 and not self.L.fired:
             self.V("launch-not-failed-after-timeout", ocls, {"atom": atom})
         # (4b) an observer must learn of the failure: once the process has ended before any 100 % (or the
         # timeout elapsed first and the process has ended since), no when_connected() Deferred may still
         # be pending at quiescence - whether it was requested before or after, with or without company
-        due = self.launch_failed_due == "exit" or (self.launch_failed_due == "timeout" and self.exited_at is not None)
+        due = exit_due or (self.launch_failed_due == "timeout" and self.exited_at is not None)
         if self.launch_failed_due and self.observers_at_failure is None:
             self.observers_at_failure = (1 if self.mode == "launch" else 0) + len(
                 [o for o in self.obs if o.kind == "wc" and not o.req_after_failure])
@@ -1185,9 +1269,10 @@ class Run(object):
                 self.pending_flagged = True
                 o = pend[0]
                 self.V("when-connected-pending-after-launch-failed",
-                       "%s/%s" % ("requested-after-failed-launch" if o.req_after_failure else "requested-before-failure",
-                                  "no-observer-registered-at-failure" if not self.observers_at_failure
-                                  else "observers-registered-at-failure"),
+                       "%s/%s%s" % ("requested-after-failed-launch" if o.req_after_failure else "requested-before-failure",
+                                    "no-observer-registered-at-failure" if not self.observers_at_failure
+                                    else "observers-registered-at-failure",
+                                    "+pipes-still-open-at-deadline" if open_pipes else ""),
                        {"failed_due": self.launch_failed_due, "pending": [x.label for x in pend][:6],
                         "mode": self.mode, "atom": atom})
         # (5) directories
@@ -1201,6 +1286,16 @@ class Run(object):
             if not spawned:
                 rec.count("launch_did_not_spawn")
                 self.judge(None, "no-spawn")
+                if self.case.get("reject"):
+                    # launch() refused its arguments: whatever the outcome, the caller's directory stays
+                    self.rejected = True
+                    rec.count("rejected_launches_judged")
+                    rec.seen("rejected_launch_outcomes", "%s: %s" % (
+                        self.case["reject"], "pending" if not (self.L and self.L.fired) else
+                        ("ok" if self.L.ok else type(self.L.value).__name__)))
+                    self.step_no += 1
+                    self.guard("shutdown", self.reactor.fireSystemEvent, "shutdown")
+                    self.judge(None, "no-spawn-after-shutdown")
                 return False
             self.request_wc()
             self.judge(None, "after-launch-call")
@@ -1234,6 +1329,12 @@ class Run(object):
                 self.applied.append("final-exit")
                 self.request_wc()
                 self.judge("final-exit", "after-final-exit")
+            elif not self.proc.ended:
+                self.step_no += 1
+                self.apply("final-end")
+                self.applied.append("final-end")
+                self.request_wc()
+                self.judge("final-end", "after-final-end")
             # counted, not judged
             if self.L is not None and not self.L.fired:
                 rec.count("launch_never_completed")
@@ -1263,7 +1364,7 @@ def run_case(case, rec):
     install()
     run = Run(case, rec)
     ok = run.run()
-    rec.case(case, nontrivial=bool(ok and run.applied))
+    rec.case(case, nontrivial=bool((ok and run.applied) or run.rejected))
     if case.get("split") is not None:
         rec.count("split_listener_cases")
     return run
@@ -1295,6 +1396,23 @@ def shard_cases(spec):
                     continue
                 rnd = gen.rnd_for(spec["seed"], PROPERTY, "late", i, wf)
                 yield variant(rnd, "caller", sched=list(s), mode="direct", wc_from=wf, wc=True, ctl="tcp")
+        # the process exits while its pipes stay open; the deadline passes / the pipes close in every order
+        for i, s in enumerate(x for x in enumerate_schedules(spec.get("pipes_maxlen", 5), PIPE_ATOMS) if "xit" in x):
+            j += 1
+            if j % n != k:
+                continue
+            rnd = gen.rnd_for(spec["seed"], PROPERTY, "pipes", i)
+            for dd in ("temp", "caller"):
+                yield variant(rnd, dd, sched=list(s))
+        # launch() refuses its arguments before spawning anything
+        for kind in REJECT_KINDS:
+            for dd in ("caller", "caller-new", "config", "temp"):
+                for rep_ in range(spec.get("reject_reps", 2)):
+                    j += 1
+                    if j % n != k:
+                        continue
+                    rnd = gen.rnd_for(spec["seed"], PROPERTY, "reject", kind, dd, rep_)
+                    yield variant(rnd, dd, sched=[], reject=kind, via="launch")
         for i, s in enumerate(enumerate_schedules(spec.get("noctl_maxlen", 3), NOCTL_ATOMS)):
             for wf in range(0, len(s) + 2):
                 j += 1
@@ -1349,6 +1467,10 @@ def run_shard(spec, rec):
                             "launch": None if run.L is None else ("pending" if not run.L.fired else
                                                                    ("ok" if run.L.ok else repr(run.L.value)))})
         if spec["mode"] == "late":
+            rec.enumerated("process exit with stdio pipes still open (xit) x all causal permutations of length <= %d of %s "
+                           "containing it" % (spec.get("pipes_maxlen", 5), ",".join(PIPE_ATOMS)))
+            rec.enumerated("launch() with arguments it refuses before spawning (%s) x temp/caller/caller-new/"
+                           "TorConfig data directory" % ",".join(REJECT_KINDS))
             rec.enumerated("TorProcessProtocol driven directly x all causal permutations of length <= %d x when_connected() "
                            "requested only from %s on; launch(control_port=0) x permutations <= %d of %s x every first "
                            "request position" % (spec["maxlen"], "every position" if spec.get("all_positions")
@@ -1391,7 +1513,7 @@ def plan(tier, seed):
     if tier == "quick":
         for k in range(13):
             specs.append({"mode": "perm", "maxlen": 6, "k": k, "of": 13})
-        specs.append({"mode": "late", "maxlen": 4, "k": 0, "of": 1})
+        specs.append({"mode": "late", "maxlen": 4, "pipes_maxlen": 5, "k": 0, "of": 1})
         for k in range(2):
             specs.append({"mode": "split", "maxlen": 4, "offsets": QUICK_OFFSETS, "k": k, "of": 2, "retry_extra": 2,
                           "stall_extra": 2, "stall_atoms": ["p100", "stl+", "stl-", "tmo", "exit1", "plo"]})
@@ -1399,8 +1521,8 @@ def plan(tier, seed):
         for k in range(32):
             specs.append({"mode": "perm", "maxlen": 7, "k": k, "of": 32, "timeout_s": 3000})
         for k in range(3):
-            specs.append({"mode": "late", "maxlen": 5, "noctl_maxlen": 4, "all_positions": True, "k": k, "of": 3,
-                          "timeout_s": 3000})
+            specs.append({"mode": "late", "maxlen": 5, "noctl_maxlen": 4, "pipes_maxlen": 6, "reject_reps": 6,
+                          "all_positions": True, "k": k, "of": 3, "timeout_s": 3000})
         # every byte offset of the listener output x all permutations <= 4; the offsets around the
         # phrase boundaries also with all permutations <= 5
         for k in range(12):
